@@ -132,8 +132,15 @@ func (p *Printer) printAssertion(a directives.Assertion) error {
 		return err
 	}
 	if len(a.Balances) == 1 {
-		_, err := fmt.Fprintf(p, " %s %s %s", a.Balances[0].Account.Extract(), a.Balances[0].Quantity.Extract(), a.Balances[0].Commodity.Extract())
-		return err
+		if _, err := fmt.Fprintf(p, " %s %s %s", a.Balances[0].Account.Extract(), a.Balances[0].Quantity.Extract(), a.Balances[0].Commodity.Extract()); err != nil {
+			return err
+		}
+		if strings.HasSuffix(a.Extract(), "\n") {
+			// the multi-line form includes the line break of its last line
+			_, err := io.WriteString(p, "\n")
+			return err
+		}
+		return nil
 	}
 	if _, err := io.WriteString(p, "\n"); err != nil {
 		return err
